@@ -828,6 +828,11 @@ func (g *generator) step() (res Value, resultType resultType, ex *Exception) {
 				break
 			}
 
+			if !vm.halted() {
+				// a Go panic (e.g. an exception thrown by a native function) was caught inside the finally block
+				continue
+			}
+
 			if vm.prg != nil && vm.pc == -2 { // normal exit from finally
 				if g.enterNextFinallyFrame() {
 					continue
